@@ -71,11 +71,11 @@ aggV  == <<nq, nb, nd, dropped, apc, closed, result>>
 
 (* ------------------------------------------------------------------ main *)
 \* first SIGINT/SIGTERM: the handler logs and calls gracefulShutdown() = cancel of the root context
-Signal1 == /\ mpc = "await" /\ sigs = 0 /\ MaxSignals >= 1
+Signal1 == /\ ~exited /\ mpc = "await" /\ sigs = 0 /\ MaxSignals >= 1
            /\ sigs' = 1 /\ mpc' = "sigwait" /\ root' = TRUE /\ Stop
            /\ UNCHANGED <<exited, forced, engV, poolV, wpc, failed, instV, aggV, lateLost>>
 \* main receives Engine.Run's result
-RecvErr == /\ epc = "ret" /\ mpc \in {"await", "sigwait"}
+RecvErr == /\ ~exited /\ epc = "ret" /\ mpc \in {"await", "sigwait"}
            /\ epc' = "sent"
            /\ \/ /\ mpc = "await" /\ errv = "nil"              \* normal end: main returns
                  /\ mpc' = "exited" /\ exited' = TRUE /\ UNCHANGED <<root, rdone, stopCount>>
@@ -87,11 +87,11 @@ RecvErr == /\ epc = "ret" /\ mpc \in {"await", "sigwait"}
                  /\ UNCHANGED <<root, rdone, stopCount>>
            /\ UNCHANGED <<sigs, forced, errv, poolV, wpc, failed, instV, aggV, lateLost>>
 \* Engine.Wait() returned
-Joined == /\ mpc \in {"sigjoin", "errwait"} /\ wpc = "done"
+Joined == /\ ~exited /\ mpc \in {"sigjoin", "errwait"} /\ wpc = "done"
           /\ mpc' = "exited" /\ exited' = TRUE
           /\ UNCHANGED <<sigs, root, forced, engV, poolV, wpc, failed, rdone, stopCount, instV, aggV, lateLost>>
 \* second signal, interrupt timeout, await timeout: exit at once (by design)
-Forced == /\ mpc \in {"sigwait", "sigjoin", "errwait"}
+Forced == /\ ~exited /\ mpc \in {"sigwait", "sigjoin", "errwait"}
           /\ \/ mpc = "errwait" /\ UNCHANGED sigs
              \/ mpc # "errwait" /\ sigs < MaxSignals /\ sigs' = sigs + 1
              \/ mpc # "errwait" /\ UNCHANGED sigs
@@ -100,14 +100,14 @@ Forced == /\ mpc \in {"sigwait", "sigjoin", "errwait"}
 
 (* ------------------------------------------------------------------ Engine.Run, pool.Run *)
 EngineReturn ==
-    /\ epc = "run"
+    /\ ~exited /\ epc = "run"
     /\ \/ /\ ppc = "ret" /\ pres = "nil" /\ errv' = "nil"                \* pool awaited, success
        \/ /\ ppc = "ret" /\ pres # "nil" /\ ~root /\ errv' = "err"       \* "pool run failed"
        \/ /\ root /\ errv' = "ctx"                                       \* ctx.Done(): return at once
     /\ epc' = "ret" /\ Stop                                              \* defer cancel()
     /\ UNCHANGED <<mainV, poolV, wpc, failed, instV, aggV, lateLost>>
 PoolReturn ==
-    /\ ppc = "run"
+    /\ ~exited /\ ppc = "run"
     /\ \/ /\ (root \/ epc # "run") /\ pres' = "ctx"                      \* ctx.Done(): return at once
        \/ /\ wpc = "done" /\ pres' = "nil"                               \* awaitErr closed
     /\ ppc' = "ret" /\ Stop                                              \* defer cancel()
@@ -115,22 +115,22 @@ PoolReturn ==
 
 (* ------------------------------------------------------------------ await goroutine *)
 \* one component error: delivered to pool.Run (rendezvous on awaitErr) or suppressed after run cancel
-FailDelivered == /\ MayFail /\ ~failed /\ wpc # "done" /\ ppc = "run" /\ ~rdone
+FailDelivered == /\ ~exited /\ MayFail /\ ~failed /\ wpc # "done" /\ ppc = "run" /\ ~rdone
                  /\ failed' = TRUE /\ ppc' = "ret" /\ pres' = "err" /\ Stop
                  /\ UNCHANGED <<mainV, engV, wpc, instV, aggV, lateLost>>
-FailSuppressed == /\ MayFail /\ ~failed /\ wpc # "done" /\ rdone
+FailSuppressed == /\ ~exited /\ MayFail /\ ~failed /\ wpc # "done" /\ rdone
                   /\ failed' = TRUE
                   /\ UNCHANGED <<mainV, engV, poolV, wpc, rdone, stopCount, instV, aggV, lateLost>>
-AllFinished == /\ wpc = "await" /\ \A i \in I : ipc[i] = "fin"
+AllFinished == /\ ~exited /\ wpc = "await" /\ \A i \in I : ipc[i] = "fin"
                /\ wpc' = "cancelled" /\ Stop                             \* runCancel()
                /\ UNCHANGED <<mainV, engV, poolV, failed, instV, aggV, lateLost>>
-AwaitDone == /\ wpc = "cancelled" /\ apc = "done"
+AwaitDone == /\ ~exited /\ wpc = "cancelled" /\ apc = "done"
              /\ wpc' = "done"
              /\ UNCHANGED <<mainV, engV, poolV, failed, rdone, stopCount, instV, aggV, lateLost>>
 
 (* ------------------------------------------------------------------ instances *)
 Report(i) ==
-    /\ ipc[i] = "run" /\ made[i] < M
+    /\ ~exited /\ ipc[i] = "run" /\ made[i] < M
     /\ ~rdone \/ ~late[i]                       \* after the stop: at most the shot in flight
     /\ late' = [late EXCEPT ![i] = rdone]
     /\ made' = [made EXCEPT ![i] = @ + 1]
@@ -141,12 +141,12 @@ Report(i) ==
           /\ IF result = -1 THEN dropped' = dropped + 1 /\ UNCHANGED lateLost
                             ELSE lateLost' = lateLost + 1 /\ UNCHANGED dropped
     /\ UNCHANGED <<mainV, engV, poolV, wpc, failed, rdone, stopCount, ipc, nb, nd, apc, closed, result>>
-Finish(i) == /\ ipc[i] = "run" /\ (made[i] = M \/ rdone)
+Finish(i) == /\ ~exited /\ ipc[i] = "run" /\ (made[i] = M \/ rdone)
              /\ ipc' = [ipc EXCEPT ![i] = "fin"]
              /\ UNCHANGED <<mainV, engV, poolV, wpc, failed, rdone, stopCount, made, late, aggV, lateLost>>
 
 (* ------------------------------------------------------------------ aggregator (Aggregator.tla on counters) *)
-aggFrame == UNCHANGED <<mainV, engV, poolV, wpc, failed, rdone, stopCount, instV, lateLost>>
+aggFrame == ~exited /\ UNCHANGED <<mainV, engV, poolV, wpc, failed, rdone, stopCount, instV, lateLost>>
 Dequeue    == apc \in {"loop", "drain"} /\ nq > 0 /\ nq' = nq - 1 /\ nb' = nb + 1
               /\ UNCHANGED <<nd, dropped, apc, closed, result>> /\ aggFrame
 Flush      == apc \in {"loop", "drain"} /\ nb > 0 /\ nd' = nd + nb /\ nb' = 0
@@ -163,12 +163,14 @@ Return     == apc = "ret" /\ result' = dropped /\ apc' = "done"
               /\ UNCHANGED <<nq, nb, nd, dropped, closed>> /\ aggFrame
 AggStep == Dequeue \/ Flush \/ SeeDone \/ DrainEnd \/ FinalFlush \/ Close \/ Return
 
-Next == /\ ~exited                             \* Exit freezes everything
-        /\ \/ Signal1 \/ RecvErr \/ Joined \/ Forced
-           \/ EngineReturn \/ PoolReturn
-           \/ FailDelivered \/ FailSuppressed \/ AllFinished \/ AwaitDone
-           \/ \E i \in I : Report(i) \/ Finish(i)
-           \/ AggStep
+\* Exit freezes everything: every action is guarded by ~exited (kept inside the actions so that TLC's
+\* coverage reports them separately)
+Next == \/ Signal1 \/ RecvErr \/ Joined \/ Forced
+        \/ EngineReturn \/ PoolReturn
+        \/ FailDelivered \/ FailSuppressed \/ AllFinished \/ AwaitDone
+        \/ \E i \in I : Report(i)
+        \/ \E i \in I : Finish(i)
+        \/ Dequeue \/ Flush \/ SeeDone \/ DrainEnd \/ FinalFlush \/ Close \/ Return
 
 Spec == Init /\ [][Next]_vars
 
@@ -186,6 +188,8 @@ ExitComplete ==
         /\ CompleteBetween(nd, result, stopCount, Total)
 \* a run that ends by itself (no signal, no failure) loses nothing at all
 NormalEndExact == (exited /\ sigs = 0 /\ ~failed) => CompleteCounts(nd, result, Total) /\ lateLost = 0
+\* after the stop every instance reports at most the shot it has in flight
+LateBounded == lateLost <= R /\ (stopCount >= 0 => Total - stopCount <= R)
 \* engine guarantee used by Aggregator.tla: without an external stop the aggregator is cancelled
 \* only after the last report
 CancelAfterLastReport == (rdone /\ ~root /\ ppc = "run" /\ epc = "run") => \A i \in I : ipc[i] = "fin"
